@@ -11,12 +11,11 @@
    creates shared synthesised denials, even through alias chases and internal sub-queries.  An
    invalid ECS configuration disables forwarding entirely.
 
-   Three clauses are FALSE of the code as it stands (each with a computed witness here that the
-   drivers replay on the Go code, see NOTES.md): option stripping and reply shaping look at the
-   LAST OPT record only; the BADVERS reply reflects the re-attached option; a background refresh
-   triggered by a client with a forwarded subnet files a scoped answer under the shared key.  For
-   those clauses the full statement is kept in a comment and the part that does hold is proved as
-   [..._partial] next to a [..._refuted]. *)
+   Four clauses were false of the tree this check was first built on (option stripping, marker and
+   reply shaping looked at the LAST OPT record only; the BADVERS reply reflected the re-attached
+   option; a background refresh re-sent the triggering client's subnet and filed the scoped answer
+   under the shared key).  They were repaired in /repo by d979d25 and fb9758c; the model describes the
+   repaired code and every clause is now proved at full strength, without the former premises. *)
 From Sdns Require Import Common.Base Gen.C19 C19.Model
   C19.Proofs_arith C19.Proofs_policy C19.Proofs_edns C19.Proofs_cache C19.Proofs_tree.
 Open Scope N_scope.
@@ -50,7 +49,7 @@ Theorem invalid_config_disables : forall b, build_valid b = false ->
   (forall client, allows (policy_of b) client = false) /\
   (forall i, clamp (policy_of b) i = None) /\
   (forall client l, new_opts (policy_of b) client l = []) /\
-  (forall client extra, (count_opt extra <= 1)%nat -> all_options (set_edns0 (policy_of b) client extra) = []) /\
+  (forall client extra, all_options (set_edns0 (policy_of b) client extra) = []) /\
   (forall client opts, request_scope (policy_of b) client opts = None).
 Proof. exact invalid_config_disables_lemma. Qed.
 Print Assumptions invalid_config_disables.
@@ -89,61 +88,54 @@ Proof. exact clamp_reveals_only_prefix. Qed.
 Print Assumptions forwarded_reveals_only_prefix.
 
 (* ---------------------------------------------------------------- upstream_ecs_only_when_allowed *)
-(* Full statement: for EVERY additional section [extra], a subnet option found anywhere in the
-   upstream-bound request implies an eligible client and is the clamp of an option the client sent.
-   Proved for queries with at most one OPT record; false with two (see the _refuted below). *)
-Theorem upstream_ecs_only_when_allowed_partial : forall p client extra e,
-  (count_opt extra <= 1)%nat ->
+(* for EVERY additional section (any number of OPT records, any options): a subnet option found
+   anywhere in the upstream-bound request implies an eligible client and is the clamp of a subnet
+   option the client sent *)
+Theorem upstream_ecs_only_when_allowed : forall p client extra e,
   In (OEcs e) (all_options (set_edns0 p client extra)) ->
   allows p client = true /\ exists cs, In (OEcs cs) (all_options extra) /\ clamp p (Some cs) = Some e.
 Proof. exact upstream_ecs_only_when_allowed_lemma. Qed.
-Print Assumptions upstream_ecs_only_when_allowed_partial.
+Print Assumptions upstream_ecs_only_when_allowed.
 
 (* ---------------------------------------------------------------- all_client_options_stripped *)
-(* Full statement: after SetEdns0 no client-supplied option is left anywhere in the additional
-   section except at most one clamped subnet option, and none at all for an ineligible client.
-   Proved for at most one OPT record. *)
-Theorem all_client_options_stripped_partial : forall p client extra,
-  (count_opt extra <= 1)%nat ->
+(* after SetEdns0 no client-supplied option is left anywhere in the additional section except at
+   most one clamped subnet option; none at all for an ineligible client or when the client sent no
+   subnet option; and the upstream-bound request carries exactly one OPT record *)
+Theorem all_client_options_stripped : forall p client extra,
   let out := all_options (set_edns0 p client extra) in
   (forall o, In o out -> exists e, o = OEcs e) /\ (length out <= 1)%nat /\
   (allows p client = false -> out = []) /\
   (has_ecs (all_options extra) = false -> out = []).
 Proof. exact all_client_options_stripped_lemma. Qed.
-Print Assumptions all_client_options_stripped_partial.
+Print Assumptions all_client_options_stripped.
 
-(* two OPT records, no policy at all: the first record's /32 subnet option and its cookie go
-   upstream untouched, and the request tree is not even marked as ECS-bearing *)
-Theorem all_client_options_stripped_refuted :
-  exists extra, all_options (set_edns0 None None extra) <> [] /\
-                In (OEcs (mk_ecs 1 32 0 (mk_ipb 4 3405803853))) (all_options (set_edns0 None None extra)) /\
-                client_has_ecs extra = false.
-Proof. exact all_client_options_stripped_refuted_lemma. Qed.
-Print Assumptions all_client_options_stripped_refuted.
+Theorem upstream_request_has_one_opt : forall p client extra, count_opt (set_edns0 p client extra) = 1%nat.
+Proof. exact set_edns0_one_opt. Qed.
+Print Assumptions upstream_request_has_one_opt.
 
-(* the tree of a (single-OPT) query that carried a subnet option is always marked, forwarded or not *)
+(* the tree of a query that carried a subnet option in ANY OPT record is marked, forwarded or not *)
 Theorem client_ecs_marks_the_tree : forall b remote extra,
-  (count_opt extra <= 1)%nat -> has_ecs (all_options extra) = true -> fst (edns_serve b remote extra) = true.
+  has_ecs (all_options extra) = true -> fst (edns_serve b remote extra) = true.
 Proof. exact marker_set_when_client_sent_ecs. Qed.
 Print Assumptions client_ecs_marks_the_tree.
 
 (* ---------------------------------------------------------------- no_ecs_to_client *)
-(* Full statement: no OPT record of any reply written to a client carries a subnet option.
-   Proved for downstream responses with at most one OPT record (whatever the request OPT holds). *)
-Theorem no_ecs_to_client_partial : forall noedns trunc resp,
-  (length resp <= 1)%nat -> forall n, In n (reply_ecs_counts noedns trunc resp) -> n = 0.
+(* no OPT record of any reply written to a client carries a subnet option — whatever the
+   downstream response (any number of OPT records, any options, the request's own OPT re-attached)
+   and whether or not the reply was truncated — and the reply has at most one OPT record *)
+Theorem no_ecs_to_client : forall noedns trunc resp,
+  forall n, In n (reply_ecs_counts noedns trunc resp) -> n = 0.
 Proof. exact no_ecs_to_client_lemma. Qed.
-Print Assumptions no_ecs_to_client_partial.
+Print Assumptions no_ecs_to_client.
 
-Theorem no_ecs_to_client_refuted :
-  exists resp, reply_ecs_counts false false resp = [1; 0] /\ reply_ecs_counts false true resp = [1].
-Proof. exact no_ecs_to_client_refuted_lemma. Qed.
-Print Assumptions no_ecs_to_client_refuted.
+Theorem reply_has_at_most_one_opt : forall noedns trunc resp, (length (reply_ecs_counts noedns trunc resp) <= 1)%nat.
+Proof. exact reply_one_opt. Qed.
+Print Assumptions reply_has_at_most_one_opt.
 
-(* EDNS version <> 0 with forwarding enabled: the BADVERS reply carries the clamped option *)
-Theorem badvers_reply_reflects_ecs_refuted : exists b remote extra, badvers_reply_counts b remote extra = [1].
-Proof. exact badvers_reflects_ecs_refuted_lemma. Qed.
-Print Assumptions badvers_reply_reflects_ecs_refuted.
+(* the BADVERS reply (EDNS version <> 0) is a bare OPT, forwarding enabled or not *)
+Theorem no_ecs_in_badvers_reply : forall b remote extra n, In n (badvers_reply_counts b remote extra) -> n = 0.
+Proof. exact badvers_reply_clean. Qed.
+Print Assumptions no_ecs_in_badvers_reply.
 
 (* ---------------------------------------------------------------- scope handling *)
 (* edns and cache agree: whenever a subnet option is forwarded the cache derives a request scope
@@ -185,29 +177,27 @@ Proof. exact scoped_lookup_inside. Qed.
 Print Assumptions scoped_probe_inside.
 
 (* ---------------------------------------------------------------- scoped_only_inside_scope *)
-(* Full statement: for EVERY history of client queries (any clients, options, scripted authority
-   answers, any queries falling into the prefetch window), every hit serves an answer whose
+(* for EVERY history of client queries (any clients, options, scripted authority answers, any
+   queries falling into the prefetch window): every hit serves an answer to the same question whose
    audience — the scope the authority declared, cut to min(declared, forwarded, floor) bits —
    contains the client's forwarded prefix; an answer with an audience is only served from a scoped
-   entry; a query without a request scope never gets a scoped entry.
-   Proved for histories whose background refreshes carry no subnet option upstream (prefetch off,
-   no query in the prefetch window, triggering client not forwarding, or 127.0.0.255 not eligible). *)
-Theorem scoped_only_inside_scope_partial : forall c ops,
-  history_blind c ops -> run_ok c [] ops.
-Proof. exact (fun c ops H => run_sound c ops [] (inv_nil _ _) H). Qed.
-Print Assumptions scoped_only_inside_scope_partial.
+   entry; a query without a request scope never gets a scoped entry; only entries for everyone are
+   refreshed *)
+Theorem scoped_only_inside_scope : forall c ops, run_ok c [] ops.
+Proof. exact (fun c ops => run_sound c ops [] (inv_nil _ _)). Qed.
+Print Assumptions scoped_only_inside_scope.
 
-(* without that premise it is false: N2, who sent no subnet option, is served the answer the
-   authority scoped to 203.0.113.0/24 for client A's refresh *)
-Theorem scoped_only_inside_scope_refuted :
-  let '(st, obs) := run leak_cfg [] leak_ops in
-  nth 1 obs (mk_obs 9 9 None None None) = mk_obs 2 1 None None (Some (Some ecs_a)) /\
-  nth 2 obs (mk_obs 9 9 None None None) = mk_obs 2 4 None None None /\
-  req_scope_of leak_cfg (co_q (nth 2 leak_ops (mk_cop (mk_query (mk_ipb 0 0) None false 0) (mk_uresp 0 0 None) false (mk_uresp 0 0 None)))) = None /\
-  exists e, In e st /\ ce_ans e = 4 /\ ce_scope e = None /\
-            effective (policy_of (c_b leak_cfg)) e = Some (mk_pfx true 3405803776 24).
-Proof. exact refresh_leaks_scoped_answer. Qed.
-Print Assumptions scoped_only_inside_scope_refuted.
+(* ... and every stored entry is filed under exactly the audience of the answer it holds *)
+Theorem entries_filed_under_their_audience : forall c ops,
+  inv (policy_of (c_b c)) (c_ecs_max c) (fst (run c [] ops)).
+Proof. exact (fun c ops => run_inv c ops [] (inv_nil _ _)). Qed.
+Print Assumptions entries_filed_under_their_audience.
+
+(* a background refresh never shows a client's subnet to the upstream *)
+Theorem refresh_is_audience_neutral : forall c st qy up aged rf st' ob x,
+  serve c st qy up aged rf = (st', ob) -> ob_refresh ob = Some x -> x = None.
+Proof. exact refresh_upstream_sees_no_subnet. Qed.
+Print Assumptions refresh_is_audience_neutral.
 
 (* ---------------------------------------------------------------- scoped_ttl_capped *)
 (* every history, no premise: a scoped entry never outlives the configured limit (when one is set) *)
@@ -252,7 +242,7 @@ Example build_examples :
   build (mk_bargs true 0 0 0 0 []) = BuildOk (mk_policy true 24 56 [] 24 56).
 Proof. vm_compute. repeat split. Qed.
 
-Example blind_history_example :
+Example history_example :
   (* a history with scoped stores, scoped and shared hits and a refresh that forwards nothing *)
   let c := mk_ccfg (mk_bargs true 0 0 0 0 [Some (mk_pfx true 3325256704 24)]) 30000000000 true in
   let a := mk_query (mk_ipb 4 3325256714) (Some [OEcs ecs_a]) false 0 in
@@ -261,13 +251,25 @@ Example blind_history_example :
                mk_cop a (mk_uresp 3 0 None) true (mk_uresp 4 0 None);
                mk_cop n (mk_uresp 5 60000000000 None) false (mk_uresp 6 0 None);
                mk_cop a (mk_uresp 7 0 None) true (mk_uresp 8 60000000000 None) ] in
-  history_blind c ops /\
   map ob_src (snd (run c [] ops)) = [0; 1; 0; 1] /\
   map ce_ttl (filter (fun e => match ce_scope e with Some _ => true | None => false end) (fst (run c [] ops))) = [30000000000%Z].
 Proof.
-  cbn zeta. split; [|vm_compute; split; reflexivity].
-  repeat constructor; right; left; reflexivity || (right; vm_compute; reflexivity).
+  vm_compute. split; reflexivity.
 Qed.
+
+Example refresh_example :
+  snd (run leak_cfg [] leak_ops) =
+  [ mk_obs 0 1 (Some None) (Some (None, 60000000000%Z)) None;
+    mk_obs 2 1 None None (Some None);
+    mk_obs 2 4 None None None ].
+Proof. exact refresh_is_audience_neutral_example. Qed.
+
+Example multi_opt_example :
+  (* two OPT records, the first with a /32 subnet option and a cookie, no policy: one bare OPT goes
+     upstream and the tree is marked *)
+  let extra := [ROpt (mk_optrr 0 [OEcs (mk_ecs 1 32 0 (mk_ipb 4 3405803853)); OOther 10]); ROther; ROpt (mk_optrr 0 [])] in
+  set_edns0 None None extra = [ROther; ROpt (mk_optrr 0 [])] /\ client_has_ecs extra = true.
+Proof. vm_compute. split; reflexivity. Qed.
 
 Example tree_examples :
   let plain := RNode false (mk_ipb 4 167772161) (Some []) false [RNode false (mk_ipb 4 2130706687) (Some []) false []] in
